@@ -13,11 +13,12 @@ from typing import Any, Callable, Dict, List, Optional
 ROOT = Path(__file__).resolve().parent.parent
 EVIDENCE = ROOT / 'evidence'
 REPLAYS = ROOT / 'replays'
-KNOWN = ROOT / 'known_findings.jsonl'
+KNOWN = ROOT / 'known_findings.txt'
 
 EXIT_OK = 0
 EXIT_VIOLATION = 1
 EXIT_INCONCLUSIVE = 2
+MAX_REPORTED = 8
 
 
 class Inconclusive(Exception):
@@ -44,13 +45,23 @@ def ncores() -> int:
 
 
 def load_known() -> List[Dict[str, Any]]:
+    """known_findings.txt, read-only at run time. Lines:
+         known: property=<id> signature=«<sig>» :: <what fails>
+         fixed: property=<id> <commit> <what failed>          (suppresses nothing)"""
     out = []
     if KNOWN.exists():
         for line in KNOWN.read_text().splitlines():
             line = line.strip()
-            if not line or line.startswith('//'):
-                continue
-            out.append(json.loads(line))
+            if line.startswith('known:'):
+                try:
+                    pid = line.split('property=', 1)[1].split()[0]
+                    sig = line.split('signature=«', 1)[1].split('»', 1)[0]
+                except IndexError:
+                    continue
+                out.append({'status': 'known', 'property': pid, 'signature': sig, 'what': line.split('::', 1)[-1].strip()})
+            elif line.startswith('fixed:'):
+                pid = line.split('property=', 1)[1].split()[0]
+                out.append({'status': 'fixed', 'property': pid, 'what': line})
     return out
 
 
@@ -165,10 +176,12 @@ class Check:
         for sig, f in sorted(seen_known.items()):
             print(f'KNOWN-FINDING: property={self.pid} {sig} :: {f.what}')
         lines = []
-        for f in new:
+        for f in new[:MAX_REPORTED]:
             path = self._write_replay(f)
             lines.append(f'VIOLATION property={self.pid} replay={path}')
-            print(f'  counterexample [{f.signature}]: {f.what}')
+            print(f'  counterexample [{short(f.signature, 120)}]: {short(f.what, 400)}')
+        if len(new) > MAX_REPORTED:
+            print(f'  ... and {len(new) - MAX_REPORTED} further distinct counterexamples (not listed)')
         for line in lines:
             print(line)
         if not cov['samples']:
@@ -195,11 +208,11 @@ class Check:
             f'solver_s={cov["solver_s"]} wall_s={ev["wall_s"]} known={len(seen_known)} new={len(new)} '
             f'inconclusive={len(self.inconclusive)}'
         )
+        for w in self.inconclusive[:10]:
+            print(f'INCONCLUSIVE: {short(w, 300)}')
         if new:
             return EXIT_VIOLATION
         if self.inconclusive:
-            for w in self.inconclusive[:10]:
-                print(f'INCONCLUSIVE: {w}')
             return EXIT_INCONCLUSIVE
         return EXIT_OK
 
